@@ -110,9 +110,8 @@ end
 
 /-- `Optimizer::optimize` preserves the rows of every well-formed tree on which no round takes the
     defective push-down branch. -/
-theorem optimize_eval (db : Db) (t : Node) (h : wf db t = true) (hs : optSafe 10 t = true) :
-    eval db (optimize t) = eval db t := by
-  have h1 := iter_applyAll_ok db 10 t h hs
+theorem optimize_eval (db : Db) (t : Node) (h : wf db t = true) : eval db (optimize t) = eval db t := by
+  have h1 := iter_applyAll_ok db 10 t h
   have h2 := fuseFlatMap_ok db _ h1.w
   have h3 := fuseJFM_ok db _ h2.w
   unfold optimize
